@@ -3,11 +3,12 @@
 cd "$(dirname "$0")" || exit 2
 tier="${1:-quick}"
 rc=0
+T=$(mktemp -d)
 for id in $(python3 -c "import json;print(' '.join(c['property_id'] for c in json.load(open('MANIFEST.json'))['checks']))"); do
-  ./check "$id" --tier "$tier" > "/tmp/verif-run-$id.out" 2> "/tmp/verif-run-$id.err"
+  ./check "$id" --tier "$tier" > "$T/$id.out" 2> "$T/$id.err"
   code=$?
-  echo "$id exit=$code $(tail -1 /tmp/verif-run-$id.err)"
-  grep -h "VIOLATION" "/tmp/verif-run-$id.out"
+  echo "$id exit=$code $(tail -1 $T/$id.err)"
+  grep -h "VIOLATION" "$T/$id.out"
   [ $code -ne 0 ] && rc=1
 done
 /opt/veriftools/pyvenv/bin/python - <<'PY'
@@ -20,4 +21,5 @@ for c in json.load(open('MANIFEST.json'))['checks']:
     assert ev['coverage'].get('obligations', 0) >= 1 and ev['coverage'].get('discharged') == ev['coverage'].get('obligations'), c['property_id']
 print("manifest and evidence valid")
 PY
+rm -rf "$T"
 exit $rc
